@@ -93,7 +93,12 @@ class Engine(CoreMixin, ExprMixin, CallMixin, StmtMixin, SpecMixin):
         if self.uses_alloc:
             extra += self.alloc_axioms()
         for o in self.obligs:
-            o.hyps = o.hyps + extra
+            if o.expect_sat:
+                # vacuity covers: the preconditions together with the contract's assumed axioms (instantiated library facts are
+                # valid and cannot make them contradictory)
+                o.hyps = o.hyps + list(self.axiom_facts)
+            else:
+                o.hyps = o.hyps + extra
         rep.obligations = self.obligs
         rep.assumptions = set(self.assumptions)
         for a in contract.axioms:
@@ -146,7 +151,7 @@ class Engine(CoreMixin, ExprMixin, CallMixin, StmtMixin, SpecMixin):
             for p in params:
                 if spec_from_ctype(getattr(p, 'ctype', None) or '') == 'real' or c.sorts.get(p.arg) == 'real':
                     st.locals[p.arg] = z3.FP(p.arg, z3.Float64())
-        if 'loop_body' in c.flags:
+        if 'loop_body' in c.flags or 'stmts_from' in c.flags:
             for nm, spec in c.sorts.items():
                 if nm not in st.locals:
                     if isinstance(spec, (tuple, list)):
@@ -176,6 +181,13 @@ class Engine(CoreMixin, ExprMixin, CallMixin, StmtMixin, SpecMixin):
             body = target[0].body
             self.notes.add('loop %r of %s verified as an arbitrary iteration (statements around the loop are outside this contract)'
                            % (c.flags['loop_body'], c.qualname))
+        if 'stmts_from' in c.flags:
+            # verify the tail of the function starting at the first top-level statement with the given text (extracted mechanically)
+            idxs = [i for i, s_ in enumerate(fn.body) if ast.unparse(s_) == c.flags['stmts_from']]
+            if not idxs:
+                raise KeyError('statement %r of %s' % (c.flags['stmts_from'], c.qualname))
+            body = fn.body[idxs[0]:]
+            self.notes.add('%s verified from statement %r on (the statements before it are outside this contract)' % (c.qualname, c.flags['stmts_from']))
         outs = self.exec_block(body, st, fr)
         if 'loop_body' in c.flags:
             outs = [('normal' if k == 'continue' else k, s_, v_) for k, s_, v_ in outs]
@@ -201,6 +213,8 @@ class Engine(CoreMixin, ExprMixin, CallMixin, StmtMixin, SpecMixin):
         """Concrete-shape Python container parameter: ('tuple', [spec...]) / ('list', [...])."""
         if isinstance(spec, (tuple, list)):
             kind, elems = spec
+            if kind == 'dict':
+                return {}
             vals = [self.sym_for_spec('%s_%d' % (name, i), e, fresh=False) for i, e in enumerate(elems)]
             return tuple(vals) if kind == 'tuple' else list(vals)
         raise Unsupported('python param spec %r' % (spec,))
